@@ -11,6 +11,7 @@ import (
 	"os"
 	"regexp"
 	"runtime"
+	"runtime/debug"
 	"sort"
 	"strings"
 	"time"
@@ -100,7 +101,23 @@ func Exec(spec *Spec, c *sim.Case, script []int16, strict, keepLog bool, out *si
 	if len(res.Panics) > 0 {
 		return run, &sim.Violation{Class: "panic", Site: panicSite(res.Panics[0]), Detail: firstLine(res.Panics[0])}
 	}
-	return run, spec.Check(run)
+	return run, safeCheck(spec, run)
+}
+
+// safeCheck runs the oracle; golib code the oracle itself calls single-threaded (final drain,
+// final snapshot) may panic on a corrupted structure: that is a violation, not harness trouble.
+func safeCheck(spec *Spec, run *Run) (v *sim.Violation) {
+	defer func() {
+		if r := recover(); r != nil {
+			stk := string(debug.Stack())
+			fs := golibFuncs(stk)
+			if len(fs) == 0 {
+				panic(r) // the harness's own bug: die loudly (exit 2)
+			}
+			v = &sim.Violation{Class: "panic", Site: fs[0], Detail: fmt.Sprintf("%v (in the single-threaded inspection after the run)", r)}
+		}
+	}()
+	return spec.Check(run)
 }
 
 func firstLine(s string) string {
